@@ -309,3 +309,6 @@ def run(tier, seed):
     trans = len(col.sets.get("transitions", ()))
     return col, {"exhaustive": True, "states": states, "transitions": trans,
                  "traces_validated_against_impl": col.evaluations, "depth": depth}
+
+
+RULE += (' Requests carrying an individual already marked evaluated (every third request); training set loaded by read_from_data_store (four preload/step combinations).')
